@@ -229,6 +229,8 @@ class Rule:
     proof: str
     source: str                  # source text of the body
     note: str = ""
+    exprs: tuple = ()            # source texts of the translated expressions (blanked in the method's skeleton)
+    method: str = ""             # Class.method the rule was read from
 
     def statement(self) -> str:
         return f"forall {self.binder}, {self.hyps}{coq(self.body)} = {self.pattern}"
@@ -601,4 +603,67 @@ def translate(path: Path) -> Translation:
     for f, v in t.fields.items():
         if isinstance(v, Exception):
             t.broken.append((f"ruleset field {f}", str(v)))
+    check_skeletons(classes, t)
     return t
+
+
+# ---------------------------------------------------------------------------------------------
+# everything in the translated methods that is NOT a translated expression must stay as it was read when the translator
+# was written (new early returns, changed guards, extra statements are a broken tie, not silently ignored)
+# ---------------------------------------------------------------------------------------------
+
+SKELETON_FILE = Path(__file__).with_name("vrules_skeletons.json")
+LOCKED = [("VectorNorm", "__new__", "VectorNorm.__new__"), ("VectorNorm", "_eval_derivative", "_eval_derivative"),
+    ("VectorDot", "__new__", "VectorDot.__new__"), ("VectorDot", "_eval_derivative", "_eval_derivative"),
+    ("VectorCross", "__new__", "VectorCross.__new__"), ("VectorCross", "_eval_vector_dot", "VectorCross._eval_vector_dot"),
+    ("VectorCross", "_eval_vector_cross", "VectorCross._eval_vector_cross"), ("VectorCross", "_eval_derivative", "_eval_derivative"),
+    ("VectorMixedProduct", "__new__", "VectorMixedProduct.__new__"), ("VectorMixedProduct", "_eval_derivative", "_eval_derivative")]
+
+
+def skeleton(classes, cname, mname, rules):
+    import copy  # pylint: disable=import-outside-toplevel
+    fn = copy.deepcopy(_method(classes[cname], mname))
+    fn.body = _strip_doc(fn.body)
+    fn.decorator_list = []
+    text = ast.unparse(fn)
+    for r in rules:
+        if r.where.startswith(f"{cname}.{mname}:"):
+            for e in (r.exprs or _source_exprs(r)):
+                text = text.replace(e, "<E>", 1)
+    return text
+
+
+def _source_exprs(r):
+    out = []
+    for part in r.source.split(" ; "):
+        part = part.strip()
+        for prefix in ("result += ",):
+            if part.startswith(prefix):
+                part = part[len(prefix):]
+        out.append(part)
+    return out
+
+
+def current_skeletons(classes, rules):
+    out = {}
+    for cname, mname, _stage in LOCKED:
+        try:
+            out[f"{cname}.{mname}"] = skeleton(classes, cname, mname, rules)
+        except Unsupported as e:
+            out[f"{cname}.{mname}"] = f"<missing: {e}>"
+    return out
+
+
+def check_skeletons(classes, t):
+    import json  # pylint: disable=import-outside-toplevel
+    if not SKELETON_FILE.exists():
+        t.broken.append(("skeletons", f"{SKELETON_FILE} missing"))
+        return
+    want = json.loads(SKELETON_FILE.read_text())
+    got = current_skeletons(classes, t.rules)
+    already = {st for st, _ in t.broken}
+    for cname, mname, stage in LOCKED:
+        k = f"{cname}.{mname}"
+        if got.get(k) != want.get(k) and stage not in already:
+            t.broken.append((stage, f"{k}: statements outside the translated rule bodies differ from the recorded shape"))
+            already.add(stage)
